@@ -1321,6 +1321,8 @@ fn execute_match(
                         None
                     }
                 }
+                // no fee due at the execute price, refund the whole fee due at the bid price
+                (None, Some(original_bid_fee)) => Some(original_bid_fee),
                 (_, _) => None,
             }
         };
